@@ -4,13 +4,17 @@ Correspondence: generated pipelines (1-5 stages, stage grammar of gen_pipeline) 
 collection contents plus a `$lookup` target collection are run on /repo
 (`list(db.c.aggregate(pipeline))`) and on the Lean model `MongoModel.Pipe.runPipeline`; outputs are
 compared exactly (document order, field order, error kind; `$group` in the order the code produces).
-Where the oracle `Spec.Pipe.specPipeline` speaks, python is compared with it too, inside the
-domain `Spec.Pipe.pipelineReasons = []` that `pipeline_eq_spec_partial` is about.
+Where the oracle `Spec.Pipe.specPipelineV` speaks (documents, or "rejected"), python is compared
+with it too, inside the domain `Spec.Pipe.pipelineReasonsV = []` that `pipelineV_eq_spec_partial`
+is about.
 
 Besides, the property is stated directly on python's observations (no model involved):
-`$match` = find(filter), `$sort` = find().sort(), `$skip/$limit` = slices, `$count` =
-count_documents, inclusion/exclusion `$project` = the find projection, and the prefix law
-aggregate(p ++ q) = aggregate(q) over a collection holding aggregate(p)'s output.
+`$match` = find(filter), `$sort` = find().sort(), `$skip/$limit` = slices (rejected outside the
+rules), `$count` = count_documents (no document over no input), inclusion/exclusion `$project` =
+the find projection, `$unwind` = the flat map with its index, `$group` = partition + fold of the
+eight accumulators, `$lookup` = join, a multi-entry `$addFields` = the merge of its entries, a
+rejected stage = an error, and the prefix law aggregate(p ++ q) = aggregate(q) over a collection
+holding aggregate(p)'s output.
 
 The witnesses of the findings that were repaired in the library (known_findings.json, status
 "fixed") are run on every check as ordinary cases (`fixed_cases`): judged like any generated case
@@ -40,19 +44,25 @@ RULE = ('case = one generated pipeline of 1-5 stages ($match $sort $skip $limit 
 ASSUMPTIONS = [
     'outside F (model answers "unmodelled", counted, not judged): $sample / $out / $graphLookup '
     '(C16), pipelines in which an in-place write of a handler could be observed through a second '
-    'reference to the same object — a dotted $addFields/$set or dotted $unwind after a stage that '
-    'can store one sub-document twice, $lookup or dotted $addFields inside a $facet branch '
-    '(MongoModel.Pipe.aliasRisk; the separation property itself is C16), a $project that returns '
-    'None followed by further stages, sort / group keys that are arrays or nested documents '
-    '(bson_compare is not a strict weak order there), min/max over lists, inexact floats ($avg of '
-    'thirds), stage operands of an unexpected Python type where the outcome is an accident of '
-    '`in` / iteration',
+    'reference to the same object — a dotted $unwind after a stage that can store one '
+    'sub-document twice, $lookup inside a $facet branch (MongoModel.Pipe.aliasRisk; the '
+    'separation property itself is C16; $addFields / $set copy what they write into since fix '
+    'eb8f57c) —, a $project that returns None followed by further stages, sort / group keys that '
+    'are arrays or nested documents (bson_compare is not a strict weak order there), comparisons '
+    'of library-generated ObjectIds, inexact floats ($avg of thirds), stage operands of an '
+    'unexpected Python type where the outcome is an accident of `in` / iteration',
     'the collections hold naive millisecond datetimes and explicit integer _ids; tz_aware=False',
     'error classes are compared between /repo and the model (wire.err_name); against the oracle '
     'only "raised / did not raise"',
     'MongoDB leaves the order of $group output unspecified: python is compared with the model in '
-    'the order the code produces (sorted by key); the oracle does not speak about $group output '
-    'as a whole — the partition laws are theorems about the model (group_partition_partial)',
+    'the order the code produces (sorted by key); the driver compares python with the seven-stage '
+    'oracle Spec.Pipe.specPipelineV only — $group / $lookup / $addFields / $replaceRoot / $facet '
+    'are tied to their oracle (Spec/PipelineExt.lean) by theorems about the model '
+    '(group_eq_spec_partial, …) and judged on python by the direct partition / fold / join '
+    'references of this module',
+    'a pipeline holding a stage MongoDB rejects (not a one-field document; $limit / $skip / $count '
+    'argument outside the rules) must raise: judged on python directly and through the oracle\'s '
+    'verdict `!Rejected`',
     'the prefix law is checked when the intermediate result can be stored: every document has a '
     'distinct hashable _id and survives an insert / find round trip unchanged',
 ]
